@@ -171,6 +171,62 @@ claim("C16", "exploration",
       "target, and keep verdicts and values across save/load.",
       TRUST_CERT, "DESIGN.md 4 C16")
 
+TRUST_ADM = ("Trusted: the genuine-device models (pv/simdev/genuine.py: endorsement scheme two, UI / "
+             "signer attestation dialogues, dashboard key dialogue, quote envelope), the fake "
+             "transports, scripted operator input, and the crypto libraries used crosswise as "
+             "oracles. Held = on the executions of this run.")
+
+claim("C08", "exploration",
+      "runtime monitor: by-construction oracle (genuine vs 50 variant classes of triples) on the "
+      "real verify_attestation commands, plus stdout-value comparison",
+      "For Ledger and SGX the real do_verify_attestation is run on genuine (attestation file, "
+      "public-keys file, root) triples over fresh keys and on variants that each break exactly "
+      "one conjunct of the statement (keys, path names, message lengths, headers, targets, UI "
+      "key, root, chain); it must return normally exactly for the genuine ones, and every value "
+      "it prints is compared with what the generator put at the documented offset.",
+      TRUST_ADM, "DESIGN.md 4 C08")
+
+claim("C15", "exploration",
+      "end-to-end runs of the real gathering and verifying commands against simulated genuine "
+      "devices, with single-point alterations injected into the devices' answers",
+      "The real do_onboard / do_attestation / do_get_pubkeys / do_verify_attestation (Ledger) and "
+      "sgx do_attestation / do_get_pubkeys / do_verify_attestation are chained on the files they "
+      "write, over fresh keys, page sizes, framings and envelope shapes; genuine runs must verify "
+      "and print the device's values, and each of ~30 single-point alterations (device answers, "
+      "files between steps, root) must make some step raise.",
+      TRUST_ADM, "DESIGN.md 4 C15")
+
+claim("C17", "exploration",
+      "runtime monitor: independent Keccak/EIP-191 computation, OpenSSL verification of produced "
+      "signatures, round-trip and refusal checks, APDU-log oracle for the authorize dialogue",
+      "SignerVersion / signapp (in-process) / SignerAuthorization / do_authorize_signer are run "
+      "over random hashes, boundary and malformed iterations, 0..10 signatures and device "
+      "thresholds; text, wrapping and digest are recomputed independently, produced signatures "
+      "verified with another library, and the exact APDU sequence seen by the simulated UI is "
+      "compared with the documented one.",
+      TRUST_ADM, "DESIGN.md 4 C17")
+
+claim("C18", "exploration",
+      "configuration grid over device state x operator input through the real admin commands; "
+      "APDU-log, os.urandom and file monitors vs precondition predicates (both directions)",
+      "Every cell of command x mode x onboarded x echo x platform x PIN kind/source x any-pin x "
+      "operator answer x flags (thorough: all ~12k, quick: all carried-out cells + a seeded "
+      "sample) runs on a fresh simulated device; destructive / PIN APDUs must appear only "
+      "under the statement's preconditions and must appear when they hold, the seed must be a "
+      "fresh os.urandom output, PINs policy-compliant unless any-pin, key files exact.",
+      TRUST_ADM, "DESIGN.md 4 C18")
+
+claim("C19", "exploration",
+      "runtime monitor: own Intel-HEX writer with by-construction hash oracle; OpenSSL "
+      "verification of produced signatures; audit-hook file monitor and key-capture wrapper",
+      "Images are written from generated area lists in two different record layouts; the real "
+      "compute_app_hash / `signapp hash` must give SHA-256 over the areas in address order for "
+      "both. signonetime.main() runs in-process: signatures verified with another library "
+      "against the written public key, sys.addaudithook lists every file opened for writing, the "
+      "generated key (captured by wrapping SigningKey.generate) must appear in no written file "
+      "and differ between runs.",
+      TRUST_ADM, "DESIGN.md 4 C19")
+
 
 def main():
     props = [json.loads(l) for l in open(os.path.join(HERE, "properties.jsonl"))]
